@@ -32,6 +32,14 @@ func TestMain(m *testing.M) { fw.Main(m) }
 // false to let the generator produce the shape again.
 const avoidKnownTempTableShadow = true
 
+// SOURCE inside a function that a SELECT invokes from several goroutines fails
+// at random with "file ... already opened" (E16/90160: the transaction's file
+// container refuses a second handler for the same path while another
+// invocation is reading the file).  That is a file-handling limitation, not a
+// scoping outcome, so the concurrent check does not generate SOURCE inside
+// its functions while this is true.
+const avoidConcurrentSource = false
+
 var (
 	varPool = []string{"a", "b", "c"}
 	funPool = []string{"fa", "fb", "fc"}
@@ -65,6 +73,7 @@ type gScope struct {
 	depth     int
 	funcDepth int
 	noDecl    map[string]bool
+	dynOnly   bool // every declaration written directly in this block goes through EXECUTE / SOURCE
 }
 
 func newScope(parent *gScope) *gScope {
@@ -157,6 +166,8 @@ type gen struct {
 	errAt   int // statement count after which one deliberate error may be injected (-1: never)
 	errDone bool
 	noPrint bool // functions for the concurrent check: no PRINT, no EXIT
+	// PREPARE statements collected for the top of the program
+	prologue []ref.PStmt
 }
 
 func (g *gen) id() int { g.nextID++; return g.nextID }
@@ -360,6 +371,49 @@ func (g *gen) block(sc *gScope, lo, hi int) []ref.PStmt {
 	}
 	if len(out) == 0 {
 		out = append(out, g.fallback(sc))
+	}
+	return g.wrapDyn(sc, out)
+}
+
+func containsDyn(stmts []ref.PStmt) bool {
+	found := false
+	ref.WalkProc(stmts, func(s *ref.PStmt, depth int) {
+		if s.K == "dyn" {
+			found = true
+		}
+	})
+	return found
+}
+
+// wrapDyn turns declarations written directly in the block into dynamically
+// executed ones: EXECUTE '<text>', EXECUTE of a statement PREPAREd at the top of
+// the program, or SOURCE of a generated file. They run in the same block, so
+// the reference treats them exactly like the plain declaration.
+func (g *gen) wrapDyn(sc *gScope, out []ref.PStmt) []ref.PStmt {
+	for i := range out {
+		switch out[i].K {
+		case "var", "cursor", "table", "func":
+		default:
+			continue
+		}
+		pct := 7
+		if sc.dynOnly {
+			pct = 100
+		}
+		if !g.chance("dyn", pct) || containsDyn(out[i:i+1]) {
+			continue
+		}
+		d := ref.PStmt{ID: g.id(), K: "dyn", Form: fw.Pick(g.t, "dynForm", []string{"exec", "exec", "prepared", "source"})}
+		if d.Form == "source" && g.noPrint && avoidConcurrentSource {
+			d.Form = "exec"
+		}
+		if d.Form == "prepared" {
+			d.Name = "p" + strconv.Itoa(d.ID)
+			g.prologue = append(g.prologue, ref.PStmt{ID: g.id(), K: "prepare", Name: d.Name, Body: []ref.PStmt{out[i]}})
+		} else {
+			d.Body = []ref.PStmt{out[i]}
+		}
+		out[i] = d
 	}
 	return out
 }
@@ -571,12 +625,18 @@ func (g *gen) whileStmt(sc *gScope) []ref.PStmt {
 	d.E = lit(0)
 	sc.vars[d.Name] = &gVar{protected: true}
 	w := g.stmt("while")
-	w.C = &ref.PCond{K: "cmp", Op: "<", A: varE(d.Name), B: lit(int64(g.intn("iters", 0, 3)))}
+	dynOnly := g.chance("dynOnlyLoop", 18)
+	iters := g.intn("iters", 0, 3)
+	if dynOnly && iters < 2 {
+		iters = 2
+	}
+	w.C = &ref.PCond{K: "cmp", Op: "<", A: varE(d.Name), B: lit(int64(iters))}
 	inc := g.stmt("set")
 	inc.Name = d.Name
 	inc.E = bin("+", varE(d.Name), lit(1))
 	body := newScope(sc)
 	body.inLoop = true
+	body.dynOnly = dynOnly
 	w.Body = append([]ref.PStmt{inc}, g.block(body, 1, 4)...)
 	out := []ref.PStmt{d, w}
 	if g.chance("afterPrint", 45) {
@@ -835,6 +895,7 @@ func (g *gen) whileIn(sc *gScope, name string) []ref.PStmt {
 	s.Name = name
 	body := newScope(sc)
 	body.inLoop = true
+	body.dynOnly = g.chance("dynOnlyLoop", 18)
 	targets := sc.setVars()
 	if len(targets) > 0 && g.chance("fetchOuter", 35) {
 		s.Var = fw.Pick(g.t, "wvar", targets)
@@ -1131,6 +1192,7 @@ func genProg(t *rapid.T) progCase {
 	if n := len(prog); !isJump(prog[n-1]) {
 		prog = g.printVisible(top, prog)
 	}
+	prog = append(append([]ref.PStmt{}, g.prologue...), prog...)
 	repairTableShadow(prog, func() ref.PResult { return ref.RunProc(prog, ref.POpt{}) })
 	return progCase{Prog: prog, Text: ref.RenderProc(prog)}
 }
@@ -1240,8 +1302,36 @@ func compare(prog []ref.PStmt, text string, want ref.PResult, got observed) *fw.
 	return fw.V("print_sequence", "%s", detail)
 }
 
+// writeSources puts the files loaded by SOURCE statements into dir; the returned function removes them.
+func writeSources(dir string, prog []ref.PStmt) (func(), error) {
+	files := ref.ProcSourceFiles(prog)
+	for _, name := range fw.SortedKeys(files) {
+		if err := os.WriteFile(filepath.Join(dir, name), []byte(files[name]), 0644); err != nil {
+			return func() {}, err
+		}
+	}
+	return func() {
+		for name := range files {
+			_ = os.Remove(filepath.Join(dir, name))
+		}
+	}, nil
+}
+
+// execProgram runs the program in a fresh session.  The deadline only exists to
+// end a csvq that loops forever (the reference has already bounded the work of
+// a correct one); so that a loaded machine cannot turn into a verdict, a run
+// that hits the first deadline is repeated once with a very long one.
 func execProgram(dir, text string, cpu int, capture bool) (run.Res, string, error) {
-	ctx, cancel := context.WithTimeout(context.Background(), 10*time.Second)
+	r, out, err := execProgramOnce(dir, text, cpu, capture, 20*time.Second)
+	if err == nil && r.Err != nil && strings.HasPrefix(run.ErrClass(r.Err), "E8/") {
+		fw.AddExtra("deadline_retries", 1)
+		return execProgramOnce(dir, text, cpu, capture, 10*time.Minute)
+	}
+	return r, out, err
+}
+
+func execProgramOnce(dir, text string, cpu int, capture bool, limit time.Duration) (run.Res, string, error) {
+	ctx, cancel := context.WithTimeout(context.Background(), limit)
 	defer cancel()
 	s, err := run.NewSess(run.Opt{Dir: dir, CaptureOut: capture, CPU: cpu, Ctx: ctx})
 	if err != nil {
@@ -1303,14 +1393,20 @@ func shape(prog []ref.PStmt) string {
 
 func checkProg(c progCase) (fw.Outcome, *fw.Violation) {
 	o := fw.Outcome{}
-	text := ref.RenderProc(c.Prog)
 	want := ref.RunProc(c.Prog, ref.POpt{})
 	if want.Discard != "" {
 		o.Discard = true
 		fw.AddExtra("discard:"+want.Discard, 1)
 		return o, nil
 	}
-	r, out, err := execProgram(emptyDir("c15empty"), text, 1, true)
+	dir := emptyDir("c15empty")
+	text := ref.RenderProcDir(c.Prog, dir)
+	cleanup, err := writeSources(dir, c.Prog)
+	defer cleanup()
+	if err != nil {
+		return o, fw.V("harness_file", "%v", err)
+	}
+	r, out, err := execProgram(dir, text, 1, true)
 	if err != nil {
 		return o, fw.V("harness_session", "%v", err)
 	}
@@ -1343,13 +1439,14 @@ func checkProg(c progCase) (fw.Outcome, *fw.Violation) {
 
 func TestC15Procedure(t *testing.T) {
 	fw.Run(t, fw.Spec[progCase]{
-		ID: "C15", Name: "procedure", Quick: 80000, Thorough: 1600000,
+		ID: "C15", Name: "procedure", Quick: 60000, Thorough: 1200000,
 		Gen: genProg, Check: checkProg,
-		Rule: "procedures of <=40 statements, block depth <=5, nesting IF/ELSEIF/ELSE, CASE (both forms), counter-bounded WHILE, WHILE..IN cursor loops, OPEN/CLOSE/FETCH (all positions)/DISPOSE CURSOR and the cursor status expressions at any depth, BREAK/CONTINUE/RETURN/EXIT, (nested, recursive factorial/fibonacci-shaped) scalar functions and calls, with variables, cursors, temporary tables and functions (re)declared under names from 3-name pools at every level; executed in-process and compared (PRINT lines, terminating error class, EXIT flow) with an environment-stack reference interpreter; non-trivial = an outer object is used again after the block that shadowed it ended, or a recursion depth >= 2; distinct by block tree + name pattern",
+		Rule: "procedures of <=40 statements, block depth <=5, nesting IF/ELSEIF/ELSE, CASE (both forms), counter-bounded WHILE, WHILE..IN cursor loops, OPEN/CLOSE/FETCH (all positions)/DISPOSE CURSOR and the cursor status expressions at any depth, declarations of all four kinds also executed dynamically in place (EXECUTE string, EXECUTE of a PREPAREd statement, SOURCE of a generated file; 18% of loops declare only that way), BREAK/CONTINUE/RETURN/EXIT, (nested, recursive factorial/fibonacci-shaped) scalar functions and calls, with variables, cursors, temporary tables and functions (re)declared under names from 3-name pools at every level; executed in-process and compared (PRINT lines, terminating error class, EXIT flow) with an environment-stack reference interpreter; non-trivial = an outer object is used again after the block that shadowed it ended, or a recursion depth >= 2; distinct by block tree + name pattern",
 		Assumptions: []string{
 			"function bodies use only parameters, locals and lexically visible functions; any name that resolves differently under lexical and dynamic (caller chain) scoping discards the case",
 			"outcomes that depend on an undocumented evaluation order (two errors in one statement, an error beside a function call with side effects, CLOSE of a closed cursor, the variable left by the failing fetch of WHILE..IN) are discarded or overwritten",
 			"a FETCH that finds no record leaves its variables unpredicted (NULL by the manual, unchanged in csvq): reading them before re-assignment discards the case; a relative FETCH after the pointer was sent more than one position out of range is discarded (resting position undocumented)",
+			"statements run by EXECUTE / SOURCE act in the block that contains them (manual: SOURCE executes the file 'as a part of the procedure', EXECUTE 'a string as statements'); PREPARE is generated at the top of the program only (prepared statements are not block-scoped)",
 			"values are integers and NULL with magnitude <= 2^40; calls deeper than 12 and runs longer than 4000 steps are discarded",
 			"avoidKnownTempTableShadow=true: executed temporary-table declarations that would shadow an outer table are removed by the generator (finding temp_table_shadow_redeclared)",
 		},
@@ -1397,8 +1494,9 @@ func genConc(t *rapid.T) concCase {
 	for i := range args {
 		args[i] = int64(g.intn("n", 0, 6))
 	}
+	prog = append(append([]ref.PStmt{}, g.prologue...), prog...)
 	repairTableShadow(prog, func() ref.PResult {
-		r, calls := ref.RunProcThenCalls(prog, fn, args, ref.POpt{})
+		r, calls := ref.RunProcThenCalls(prog, fn, args, ref.POpt{MaxSteps: 1500})
 		_ = calls
 		return r
 	})
@@ -1407,8 +1505,8 @@ func genConc(t *rapid.T) concCase {
 
 func checkConc(c concCase) (fw.Outcome, *fw.Violation) {
 	o := fw.Outcome{}
-	text := ref.RenderProc(c.Decls)
-	want, calls := ref.RunProcThenCalls(c.Decls, c.Fn, c.Args, ref.POpt{})
+	text := ref.RenderProcDir(c.Decls, emptyDir("c15conc"))
+	want, calls := ref.RunProcThenCalls(c.Decls, c.Fn, c.Args, ref.POpt{MaxSteps: 1500})
 	if want.Discard != "" || want.Err != "" || want.Exit {
 		o.Discard = true
 		fw.AddExtra("discard:prefix:"+want.Discard+want.Err, 1)
@@ -1440,6 +1538,11 @@ func checkConc(c concCase) (fw.Outcome, *fw.Violation) {
 	if err := os.WriteFile(filepath.Join(dir, "big.csv"), []byte(b.String()), 0644); err != nil {
 		return o, fw.V("harness_file", "%v", err)
 	}
+	cleanup, err := writeSources(dir, c.Decls)
+	defer cleanup()
+	if err != nil {
+		return o, fw.V("harness_file", "%v", err)
+	}
 	cpu := c.CPU
 	if cpu < 1 {
 		cpu = 4
@@ -1469,6 +1572,9 @@ func checkConc(c concCase) (fw.Outcome, *fw.Violation) {
 	if r.Err != nil {
 		if want.Stats.TableShadowStmt != 0 && got == ref.PErrRedeclTable {
 			return o, fw.V("temp_table_shadow_redeclared", "function-local temporary table rejected as redeclared: %v\n%s", r.Err, full)
+		}
+		if got == "E16/90160" {
+			return o, fw.V("concurrent_source_already_opened", "SOURCE inside a function invoked from several goroutines: %v (SELECT over %d rows, CPU %d)\n%s", r.Err, len(c.Args), cpu, full)
 		}
 		return o, fw.V("concurrent_unexpected_error:"+got, "SELECT over %d rows: %v\n%s", len(c.Args), r.Err, full)
 	}
@@ -1513,11 +1619,179 @@ func checkConc(c concCase) (fw.Outcome, *fw.Violation) {
 
 func TestC15Concurrent(t *testing.T) {
 	fw.Run(t, fw.Spec[concCase]{
-		ID: "C15", Name: "concurrent", Quick: 8000, Thorough: 160000,
+		ID: "C15", Name: "concurrent", Quick: 5000, Thorough: 100000,
 		Gen: genConc, Check: checkConc,
 		Rule: "1-3 generated scalar functions (locals, nested blocks and loops, local cursors/tables/functions, recursion; no PRINT) declared beside top-level variables of the same names, then SELECT id, n, f(INTEGER(n)) FROM a 160-320 row CSV (n in 0..6) with CPU 4 so that invocations run concurrently; every row's value must equal the reference interpreter's f(n); non-trivial = recursion depth >= 2 or an outer object used after its shadowing block ended; distinct by function shapes + argument set",
 		Assumptions: []string{
 			"same closedness / discard rules as the procedure check; functions that PRINT are not generated here because their interleaving is unordered",
 		},
+	})
+}
+
+// ---------------------------------------------------------------------
+// aggregate_args: a user-defined AGGREGATE with extra parameters used as an
+// analytic function; the partitions are evaluated by several goroutines and
+// every invocation must see the arguments of its own record.
+
+type aggRow struct {
+	G int      `json:"g"`
+	V int64    `json:"v"`
+	P [3]int64 `json:"p"`
+}
+
+type aggCase struct {
+	Params     []string `json:"params"` // parameter names (also declared as top-level variables)
+	Kind       string   `json:"kind"`   // sum count max
+	Slow       int      `json:"slow"`   // index of the argument wrapped in a slow scalar function (-1: none)
+	SlowLoops  int      `json:"slow_loops"`
+	Partitions int      `json:"partitions"`
+	Rows       []aggRow `json:"rows"`
+	CPU        int      `json:"cpu"`
+	Repeats    int      `json:"repeats"`
+}
+
+func genAgg(t *rapid.T) aggCase {
+	c := aggCase{Kind: fw.Pick(t, "kind", []string{"sum", "count", "max"}), CPU: fw.Pick(t, "cpu", []int{2, 4, 8}), Repeats: 6}
+	np := rapid.IntRange(1, 3).Draw(t, "nparams")
+	perm := rapid.Permutation(varPool).Draw(t, "names")
+	c.Params = perm[:np]
+	c.Slow = rapid.IntRange(-1, np-1).Draw(t, "slow")
+	c.SlowLoops = rapid.IntRange(0, 60).Draw(t, "loops")
+	c.Partitions = rapid.IntRange(4, 12).Draw(t, "partitions")
+	n := rapid.IntRange(96, 240).Draw(t, "rows")
+	c.Rows = make([]aggRow, n)
+	for i := range c.Rows {
+		r := aggRow{G: rapid.IntRange(0, c.Partitions-1).Draw(t, "g"), V: int64(rapid.IntRange(0, 9).Draw(t, "v"))}
+		for j := 0; j < np; j++ {
+			r.P[j] = int64(rapid.IntRange(0, 99).Draw(t, "p"))
+		}
+		c.Rows[i] = r
+	}
+	return c
+}
+
+func (c aggCase) program() string {
+	var b strings.Builder
+	for i, p := range varPool {
+		fmt.Fprintf(&b, "VAR @%s := %d;\n", p, 700+i)
+	}
+	fmt.Fprintf(&b, "DECLARE slow FUNCTION (@a) AS BEGIN\n  VAR @k := 0;\n  WHILE @k < %d DO\n    @k := @k + 1;\n  END WHILE;\n  RETURN @a;\nEND;\n", c.SlowLoops)
+	// the local accumulator / fetch variable use the pool names the parameters left over, or private names
+	b.WriteString("DECLARE ag AGGREGATE (cur")
+	for _, p := range c.Params {
+		b.WriteString(", @" + p)
+	}
+	b.WriteString(") AS BEGIN\n  VAR @s := 0;\n  VAR @x;\n  WHILE @x IN cur DO\n")
+	switch c.Kind {
+	case "sum":
+		b.WriteString("    @s := @s + @x;\n")
+	case "count":
+		b.WriteString("    @s := @s + 1;\n")
+	default:
+		b.WriteString("    IF @x > @s THEN\n      @s := @x;\n    END IF;\n")
+	}
+	b.WriteString("  END WHILE;\n  RETURN @s * 1000000")
+	coef := []int{10000, 100, 1}
+	for i, p := range c.Params {
+		fmt.Fprintf(&b, " + @%s * %d", p, coef[i])
+	}
+	b.WriteString(";\nEND;\n")
+	args := ""
+	for i := range c.Params {
+		a := fmt.Sprintf("INTEGER(p%d)", i+1)
+		if i == c.Slow {
+			a = "slow(" + a + ")"
+		}
+		args += ", " + a
+	}
+	for i := 0; i < c.Repeats; i++ {
+		fmt.Fprintf(&b, "SELECT id, ag(INTEGER(v)%s) OVER (PARTITION BY g) AS r FROM big;\n", args)
+	}
+	return b.String()
+}
+
+func checkAgg(c aggCase) (fw.Outcome, *fw.Violation) {
+	o := fw.Outcome{}
+	if len(c.Params) < 1 || len(c.Params) > 3 || len(c.Rows) == 0 || c.Repeats < 1 {
+		o.Discard = true
+		return o, nil
+	}
+	// model: per record, aggregate of its partition's v and the record's own arguments
+	agg := map[int]int64{}
+	for _, r := range c.Rows {
+		switch c.Kind {
+		case "sum":
+			agg[r.G] += r.V
+		case "count":
+			agg[r.G]++
+		default:
+			if r.V > agg[r.G] {
+				agg[r.G] = r.V
+			}
+		}
+	}
+	coef := []int64{10000, 100, 1}
+	want := make([]int64, len(c.Rows))
+	for i, r := range c.Rows {
+		w := agg[r.G] * 1000000
+		for j := range c.Params {
+			w += r.P[j] * coef[j]
+		}
+		want[i] = w
+	}
+	dir := emptyDir("c15agg")
+	var b strings.Builder
+	b.WriteString("id,g,v,p1,p2,p3\n")
+	for i, r := range c.Rows {
+		fmt.Fprintf(&b, "%d,%d,%d,%d,%d,%d\n", i, r.G, r.V, r.P[0], r.P[1], r.P[2])
+	}
+	if err := os.WriteFile(filepath.Join(dir, "big.csv"), []byte(b.String()), 0644); err != nil {
+		return o, fw.V("harness_file", "%v", err)
+	}
+	text := c.program()
+	r, _, err := execProgram(dir, text, c.CPU, false)
+	if err != nil {
+		return o, fw.V("harness_session", "%v", err)
+	}
+	if r.ParseErr {
+		return o, fw.V("generator_syntax", "%v\n%s", r.Err, text)
+	}
+	if r.Err != nil {
+		return o, fw.V("aggregate_unexpected_error:"+csvqErrClass(r.Err), "%v\n%s", r.Err, text)
+	}
+	if len(r.Views) != c.Repeats {
+		return o, fw.V("aggregate_result_shape", "expected %d results, got %d", c.Repeats, len(r.Views))
+	}
+	for run, v := range r.Views {
+		if len(v.Rows) != len(c.Rows) {
+			return o, fw.V("aggregate_result_shape", "run %d: expected %d rows, got %d", run, len(c.Rows), len(v.Rows))
+		}
+		seen := make([]bool, len(c.Rows))
+		for _, row := range v.Rows {
+			id, e := strconv.Atoi(row[0].S)
+			if e != nil || len(row) != 2 || id < 0 || id >= len(c.Rows) || seen[id] {
+				return o, fw.V("aggregate_result_shape", "run %d: unexpected row %v", run, row)
+			}
+			seen[id] = true
+			if row[1].K != "I" || row[1].S != strconv.FormatInt(want[id], 10) {
+				return o, fw.V("aggregate_invocation_arguments", "run %d (cpu %d, %d rows, %d partitions): record id=%d g=%d p=%v got %s, expected %d: the invocation did not see its own record's arguments / partition\n%s",
+					run, c.CPU, len(c.Rows), c.Partitions, id, c.Rows[id].G, c.Rows[id].P[:len(c.Params)], row[1], want[id], text)
+			}
+		}
+	}
+	o.Classes = append(o.Classes, "kind:"+c.Kind, fmt.Sprintf("params:%d", len(c.Params)), fmt.Sprintf("cpu:%d", c.CPU), fmt.Sprintf("slow_arg:%v", c.Slow >= 0))
+	if len(agg) >= 2 && len(c.Rows)*len(agg) > 80 {
+		o.Classes = append(o.Classes, "nontrivial")
+		o.Fingerprint = fmt.Sprintf("%s|%v|%d|%d|%d|%d|%d", c.Kind, c.Params, c.Slow, c.SlowLoops/10, len(agg), c.CPU, len(c.Rows)/16)
+	}
+	return o, nil
+}
+
+func TestC15AggregateArgs(t *testing.T) {
+	fw.Run(t, fw.Spec[aggCase]{
+		ID: "C15", Name: "aggregate_args", Quick: 400, Thorough: 8000,
+		Gen: genAgg, Check: checkAgg,
+		Rule:        "a user-defined AGGREGATE with 1-3 extra parameters (named like top-level variables) called as ag(v, p1[, slow(p2)][, p3]) OVER (PARTITION BY g) on 96-240 records in 4-12 partitions with cpu in {2,4,8}, the statement repeated 6 times per case; every record's value must be aggregate(partition) * 10^6 + its own arguments (closed-form model); non-trivial = >= 2 partitions and records*partitions > 80 (csvq's threshold for evaluating partitions in several goroutines); distinct by (kind, parameter names, slow argument, partitions, cpu, size bucket)",
+		Assumptions: []string{"no race-detector mode in this check: each case repeats the statement 6 times (quick: 400 cases = 2400 concurrent statements); C13 covers the same sharing under -race"},
 	})
 }
